@@ -12,7 +12,7 @@ typedef struct { int n; int e[MAXN + 2]; } model_t;
 static sm_spec_t SP;
 static unsigned char ELB[3][64];
 
-enum { OP_ADDFIRST, OP_ADDLAST, OP_ADDAT, OP_SETAT, OP_SETFIRST, OP_SETLAST, OP_POPAT, OP_POPFIRST, OP_POPLAST, OP_REMOVEAT, OP_REMOVEFIRST, OP_REMOVELAST, OP_REVERSE, OP_RESIZE, OP_CLEAR };
+enum { OP_ADDFIRST, OP_ADDLAST, OP_ADDAT, OP_SETAT, OP_SETFIRST, OP_SETLAST, OP_POPAT, OP_POPFIRST, OP_POPLAST, OP_REMOVEAT, OP_REMOVEFIRST, OP_REMOVELAST, OP_REVERSE, OP_RESIZE, OP_CLEAR, OP_RESIZEHUGE };
 typedef struct { int kind, i, e; const char *label; } op_t;
 static op_t OPS[400]; static int NOPS;
 static const char *op_label(int op) { return OPS[op].label; }
@@ -121,6 +121,15 @@ static int apply(qvector_t *v, model_t *m, const op_t *op, int check, const char
             break;
         }
         case OP_CLEAR: v->clear(v); m->n = 0; break;
+        case OP_RESIZEHUGE: {   /* capacities whose byte size does not fit into size_t (or into memory): can only be refused, and then nothing may change */
+            size_t want = op->i == 2 ? SIZE_MAX : SIZE_MAX / OSZ + 1 + op->i;
+            if (want == 0 || (op->i < 2 && OSZ == 1)) return 1;
+            size_t max0 = v->max; errno = 0; bool r = v->resize(v, want); int e = errno;
+            if (check && r) vc_viol("array:resize-huge", "%s: resize(%zu) of %d-byte elements returned true (capacity now %zu)", after, want, OSZ, v->max);
+            else if (check && e != ENOMEM) vc_viol("array:resize-huge", "%s: resize(%zu) refused with errno %d, ENOMEM is documented", after, want, e);
+            if (check && !r && v->max != max0) vc_viol("array:resize-huge", "%s: refused resize(%zu) changed the capacity from %zu to %zu", after, want, max0, v->max);
+            break;
+        }
     }
     return 0;
 }
@@ -151,6 +160,13 @@ static int transition(const uint16_t *hist, int d, int opi, char *ckey, int verb
 static void ctor_probes(void) {   /* refused constructions */
     errno = 0; qvector_t *v = qvector(4, 0, QVECTOR_RESIZE_DOUBLE);
     if (v != NULL || errno != EINVAL) { vc_viol("array:ctor-einval", "qvector(max 4, objsize 0) not refused with EINVAL"); if (v) v->free(v); }
+    for (int h = 0; h < 3; h++) {   /* an initial capacity whose byte size does not fit into size_t can only be refused */
+        size_t want = h == 2 ? SIZE_MAX : SIZE_MAX / OSZ + 1 + h;
+        if (want == 0 || (h < 2 && OSZ == 1)) continue;
+        errno = 0; v = qvector(want, OSZ, QVECTOR_RESIZE_DOUBLE);
+        if (v != NULL) { vc_viol("array:ctor-huge", "qvector(max %zu, objsize %d) returned a vector", want, OSZ); v->max = 0; v->free(v); }
+        else if (errno != ENOMEM) vc_viol("array:ctor-huge", "qvector(max %zu, objsize %d) refused with errno %d, not ENOMEM", want, OSZ, errno);
+    }
 }
 static void initial(char *ckey) { ctor_probes(); int opt = POLICY == 0 ? QVECTOR_RESIZE_EXACT : POLICY == 1 ? QVECTOR_RESIZE_LINEAR : QVECTOR_RESIZE_DOUBLE; qvector_t *v = qvector(CAP0, OSZ, opt); canon(v, ckey); v->free(v); }
 static void setup(void) {
@@ -164,6 +180,7 @@ static void setup(void) {
     OPS[NOPS++] = (op_t){OP_REVERSE, 0, 0, "qvector_reverse"};
     for (int mx = 0; mx <= N + 2; mx++) OPS[NOPS++] = (op_t){OP_RESIZE, mx, 0, "qvector_resize"};
     OPS[NOPS++] = (op_t){OP_CLEAR, 0, 0, "qvector_clear"};
+    for (int h = 0; h < 3; h++) OPS[NOPS++] = (op_t){OP_RESIZEHUGE, h, 0, "qvector_resize"};
     snprintf(SP.prefix, sizeof SP.prefix, "vector:%d:%d:%d:%d:", CAP0, OSZ, POLICY, N);
     SP.nops = NOPS; SP.label = op_label; SP.transition = transition; SP.initial = initial;
 }
